@@ -1081,13 +1081,16 @@ class Lexer:
             if not self.accept_token(self.expression):
                 if match := self.RE_TAG_END.match(self.source, self.pos):
                     self.wc.append(self.WC_MAP[match.group(1)])
+                    # The statement ends where the tag's closing delimiter
+                    # starts, as it ends where a newline starts.
+                    statement_stop = self.pos
                     self.pos += match.end() - match.start()
                     self.ignore()
                     self.line_statements.append(
                         TagToken(
                             type_=TokenType.TAG,
                             start=self.line_start,
-                            stop=self.pos,
+                            stop=statement_stop,
                             wc=self.WC_DEFAULT,
                             name=self.tag_name,
                             expression=self.expression,
